@@ -5987,7 +5987,9 @@ class Parser:
             expression = this.expression
 
             if expression:
-                for arg in self.SET_OP_MODIFIERS:
+                # sorted: the order in which the modifiers are attached (hence args / walk / repr order)
+                # must not depend on the iteration order of a set of strings
+                for arg in sorted(self.SET_OP_MODIFIERS):
                     expr = expression.args.get(arg)
                     if expr:
                         this.set(arg, expr.pop())
